@@ -11,7 +11,16 @@ READY = True
 RUN_IMPORT = "Dom.ReactiveRun"
 IMPL_SHARDS = 8
 
-RULE = ("(a quarter of the cases are leptos-level component trees — the real <Show>, <For>/<ForEnumerate>, <Suspense>/"
+RULE = ("(added by the anchor coverage audit, coverage/C04.md: every second case also yields a reactive-wide program — "
+        "dynamic text and title / class / class:x / style:x / style values as closures, Arc<dyn Fn>, Arc<Mutex<dyn FnMut>> and "
+        "the signal itself in nine types (RwSignal, ReadSignal, Memo, Signal, MaybeSignal, ArcRwSignal, ArcReadSignal, "
+        "ArcMemo, ArcSignal), class = Option, class / style NAMES and Either-valued attributes chosen by the enclosing "
+        "conditional's value (so that an in-place rebuild changes them), EitherOf3/4/5 conditionals, fragments of 0..3 views "
+        "as branch roots, async leaves resolving to an element or a two-node fragment, add_any_attr on elements and on "
+        "closures, for a third of them the first writes before any task was polled; judged by the oracle only; the "
+        "leptos-level trees also contain fragments as branch roots, <Show> and boundaries without fallback, and "
+        "ArcLocalResource) "
+        "(a quarter of the cases are leptos-level component trees — the real <Show>, <For>/<ForEnumerate>, <Suspense>/"
         "<Transition> over LocalResources with oneshot-controlled fetchers read through Suspend and through .get(), "
         "<ErrorBoundary> switching between Ok and Err, nested, with dynamic text / property leaves — mounted with "
         "leptos::mount::mount_to_renderer; histories of signal writes, resource completions and, for half of them, "
@@ -39,6 +48,10 @@ TRUSTED = [
     "is abstracted to 'the effect re-runs only if the memoised value changed'; Owner cleanup is not modelled (effects "
     "are dropped with the state that holds them)",
     "every child is type-erased (AnyView) in the harness; the static typing of tuples/Either underneath is the real one",
+    "compared, not proved (kind reactive-wide): the representations of reactive values (shared functions, signal types), "
+    "Option / Either-valued attributes, EitherOfN, fragments, async leaves with element content, attribute spreading; "
+    "a spread attribute is only put on views whose top-level elements are static (a type-erased view binds it to the "
+    "elements present when it is built)",
 ]
 ASSUMPTIONS = [
     "closures are pure functions of the signals they read and read all of them on every run (no untrack, no writes from effects)",
@@ -1555,7 +1568,12 @@ LEVEL_TEXT = ("Coq proofs, for all reactive view programs of the grammar (dynami
               "run logs and the DOM with per-node identity/mutation status at every idle point, plus a fresh-mount oracle.")
 LEVEL_NOTE = ("Trusted: Coq kernel, extraction + OCaml driver, the Rust harness and its executor, the native DOM hook; "
               "modelled not verified: signal->effect notification and memo change-detection (properties C02/C09), Owner "
-              "cleanup. Suspense, ErrorBoundary and For at leptos level are neither modelled nor driven by this check "
-              "(partial). No axioms.")
+              "cleanup. Compared, not proved (oracle = from-scratch render / component semantics): the leptos components "
+              "<Show>, <For>, <ForEnumerate>, <Suspense>, <Transition>, <ErrorBoundary> over (Arc)LocalResource, keyed lists, "
+              "and the wide grammar of the anchor coverage audit (coverage/C04.md: signal types and shared functions as "
+              "children and attribute values, style=, class=Option, renamed class:/style: names, EitherOfN, fragments, "
+              "async element content, attribute spreading). Open finding F-C04-c (Either-valued attribute rebuilt with its "
+              "other side) lies on that oracle-only ground. Not driven: reactive_impl! for store fields, Suspend-valued "
+              "attributes, paused owners (C02). No axioms.")
 TECHNIQUE = ("Coq proof (invariant over all event sequences: every un-notified live effect's cache is current) + "
              "differential correspondence of the extracted model with the Rust code")
